@@ -348,7 +348,15 @@ def _is_valid_MatchMapping_key(ast: AST) -> bool:
 
 
 def _maybe_par_above(above: fst.FST, below: fst.FST) -> bool:
-    while (a := below.a).__class__ in (Attribute, Subscript):
+    while (a_cls := (a := below.a).__class__) in (Attribute, Subscript, Call):
+        if a_cls is Call:  # `(f)(x).a: int` is just as invalid as `(f).a: int`, a parenthesized Call itself is not a target so is fine
+            if below.pars().n:
+                return False
+
+            below = a.func.f
+
+            continue
+
         if below.pars().n:
             above._parenthesize_grouping()
 
